@@ -39,6 +39,12 @@ Section Att.
     let P := project rows W bias in
     core (map (firstn dq) P) (map (fun r => firstn dk (skipn dq r)) P) (map (fun r => firstn dv (skipn (dq + dk) r)) P).
 
+  (* the packed variant of the pattern (no_slice = False): projected = MatMul(input, qkv_weight) sliced on the last axis at
+     [0, e1), [e1, e2), [e2, e3 >= hidden); the bias slices are added by MultiHeadAttention *)
+  Definition att_pattern_slice (rows : list (list A)) (W : list (list A)) (bias : list A) (dq dk : nat) : Out :=
+    let P := matmul rows W in
+    mha_with_bias (map (firstn dq) P) (map (fun r => firstn dk (skipn dq r)) P) (map (skipn (dq + dk)) P) dq dk bias.
+
   (* with past / present: flat tensors; past = past_key ++ past_value (leading axis of extent 2) *)
   Variable core_past : list (list A) -> list (list A) -> list (list A) -> list A -> list A -> Out * list A * list A.
   Definition half (past : list A) : nat := length past / 2.
